@@ -25,18 +25,24 @@ var histAlphabet = []string{
 	"RSET", "NOOP", "VRFY",
 	"AUTH_OK", "AUTH_FAIL", "AUTH_CANCEL", "AUTH_2STEP",
 	"STARTTLS", "QUIT", "UNKNOWN", "HELP", "EMPTY", "SHORT",
+	"DATA_BIG", "BDAT_BIG", "BDAT_BIG_LAST",
 }
 
+// histBig is the payload size of the *_BIG commands; histLimit the size limit used by the
+// configurations that have one (ordinary payloads of a whole history stay far below it).
+const histBig, histLimit = 1500, 1000
+
 type hcase struct {
-	Mode    srvMode  `json:"mode"`
-	MaxRcpt int      `json:"max_rcpt"`
-	Hist    []string `json:"hist"`
-	Disc    string   `json:"disc"` // lock | pipe | recut
-	CutSeed uint64   `json:"cut_seed"`
+	Mode     srvMode  `json:"mode"`
+	MaxRcpt  int      `json:"max_rcpt"`
+	MaxBytes int64    `json:"max_bytes"` // MaxMessageBytes (0 = none); the *_BIG commands exceed it
+	Hist     []string `json:"hist"`
+	Disc     string   `json:"disc"` // lock | pipe | recut
+	CutSeed  uint64   `json:"cut_seed"`
 }
 
 func (h hcase) key() string {
-	return fmt.Sprintf("%s|%d|%s|%s|%d", h.Mode, h.MaxRcpt, strings.Join(h.Hist, ","), h.Disc, h.CutSeed)
+	return fmt.Sprintf("%s|%d|%d|%s|%s|%d", h.Mode, h.MaxRcpt, h.MaxBytes, strings.Join(h.Hist, ","), h.Disc, h.CutSeed)
 }
 
 type rcmd struct {
@@ -51,6 +57,7 @@ type rcmd struct {
 	AuthResp   string // line to send after a 334 ("" = none expected)
 	Token      string // token expected in the negative reply when the backend rejects
 	Reject     bool   // the backend script rejects this command / message
+	Big        bool   // the payload exceeds histLimit
 	Sync       bool
 }
 
@@ -112,6 +119,32 @@ func hRender(i int, abs string, mode srvMode) rcmd {
 		}
 		c.Body = []byte(body + ".\r\n")
 		c.Sync = true
+	case "DATA_BIG":
+		c.Kind = "data"
+		c.Send = line("DATA")
+		body := fmt.Sprintf("ID:%d\r\n", i)
+		for len(body) < histBig {
+			body += "filler line of the big message\r\n"
+		}
+		c.Body = []byte(body + ".\r\n")
+		c.Big = true
+		c.Sync = true
+	case "BDAT_BIG", "BDAT_BIG_LAST":
+		c.Kind = "bdat"
+		pay := fmt.Sprintf("ID:%d\r\n", i)
+		for len(pay) < histBig {
+			pay += "filler line of the big chunk\r\n"
+		}
+		c.Last = abs == "BDAT_BIG_LAST"
+		cmd := fmt.Sprintf("BDAT %d", len(pay))
+		if c.Last {
+			cmd += " LAST"
+		}
+		c.Send = append(line(cmd), pay...)
+		c.Body = []byte(pay)
+		c.WellFormed = true
+		c.Big = true
+		c.Sync = c.Last
 	case "DATA_ARG":
 		c.Kind = "bad"
 		c.Send = line("DATA now")
@@ -322,6 +355,7 @@ func histRig(h hcase) *wire.Rig {
 	rig := wire.NewRig(kind, func(s *smtp.Server) {
 		s.LMTP = h.Mode.lmtp()
 		s.MaxRecipients = h.MaxRcpt
+		s.MaxMessageBytes = h.MaxBytes
 		s.AllowInsecureAuth = true
 		s.TLSConfig = wire.ServerTLS()
 	})
@@ -506,6 +540,7 @@ type txnState struct {
 	authed   bool
 	nErrors  int
 	lastHelo string
+	bigSeen  bool // a *_BIG chunk was accepted into the open transfer
 }
 
 func all5xx(rs []wire.Reply) bool {
@@ -620,6 +655,9 @@ func histMonitor(run *histRun) []hviol {
 		}
 		switch {
 		case len(rs) == want:
+		case c.Kind == "bdat" && c.Last && h.MaxBytes > 0 && (c.Big || st.bigSeen) && len(rs) == 1 && rs[0].Class() == 5:
+			// a LAST chunk refused for its size at command time: whether that refusal is one
+			// reply or one per recipient is not fixed by the statement
 		case len(rs) == want+1 && o.Closed && rs[len(rs)-1].Class() == 5:
 			// closing notice after too many errors
 		case len(rs) < want && o.Closed && len(rs) > 0 && (rs[len(rs)-1].Class() == 4 || rs[len(rs)-1].Class() == 5):
@@ -635,7 +673,7 @@ func histMonitor(run *histRun) []hviol {
 
 		// ---------------- C03 / C04 per kind
 		judge := !st.tainted
-		endTxn := func() { st.mailOK, st.rcpts, st.chunk, st.tainted = false, 0, false, false }
+		endTxn := func() { st.mailOK, st.rcpts, st.chunk, st.tainted, st.bigSeen = false, 0, false, false, false }
 		dataBegins += len(datas)
 		switch c.Kind {
 		case "hello":
@@ -682,6 +720,16 @@ func histMonitor(run *histRun) []hviol {
 				}
 				break
 			}
+			if st.chunk && judge {
+				// RFC 3030: between the first BDAT and BDAT LAST only BDAT, RSET, NOOP and QUIT
+				// are in order
+				if len(mails) > 0 {
+					add("C03:out-of-order-callback", "%s: MAIL during an open chunked transfer reached the backend", name)
+				}
+				if !all5xx(rs) && len(rs) > 0 {
+					add("C03:out-of-order-not-5xx", "%s: MAIL during an open chunked transfer answered %s", name, codes(rs))
+				}
+			}
 			if st.chunk || st.mailOK {
 				// MAIL inside an open transaction / transfer: the statement does not say what
 				// happens; if it is accepted the transaction is no longer judged.
@@ -720,6 +768,14 @@ func histMonitor(run *histRun) []hviol {
 				}
 				break
 			}
+			if judge && st.chunk {
+				if len(rcptsCB) > 0 {
+					add("C03:out-of-order-callback", "%s: RCPT during an open chunked transfer reached the backend", name)
+				}
+				if !all5xx(rs) && len(rs) > 0 {
+					add("C03:out-of-order-not-5xx", "%s: RCPT during an open chunked transfer answered %s", name, codes(rs))
+				}
+			}
 			if judge && !st.chunk && len(rs) > 0 {
 				limitHit := h.MaxRcpt > 0 && st.rcpts >= h.MaxRcpt
 				switch {
@@ -748,6 +804,9 @@ func histMonitor(run *histRun) []hviol {
 			if o.Body {
 				opens++
 			}
+			if judge && st.chunk && o.Body {
+				add("C03:out-of-order-not-5xx", "%s: DATA during an open chunked transfer answered 354", name)
+			}
 			if judge && !st.chunk {
 				if st.rcpts == 0 || !st.mailOK {
 					if o.Body {
@@ -768,6 +827,12 @@ func histMonitor(run *histRun) []hviol {
 			}
 			if judge && !st.chunk {
 				for _, r := range rs[1:] {
+					if c.Big && h.MaxBytes > 0 {
+						if r.Class() == 2 {
+							add("C04:attribution:data", "%s: a message above MaxMessageBytes got the final reply %s", name, r)
+						}
+						continue
+					}
 					if c.Reject {
 						if r.Class() == 2 {
 							add("C04:attribution:data", "%s: backend rejected the message but the final reply is %s", name, r)
@@ -808,6 +873,12 @@ func histMonitor(run *histRun) []hviol {
 			ended := c.Last || !positive
 			if c.Last && judge {
 				for _, r := range rs {
+					if h.MaxBytes > 0 && (c.Big || st.bigSeen) {
+						if r.Class() == 2 {
+							add("C04:attribution:bdat", "%s: a chunked message above MaxMessageBytes got the final reply %s", name, r)
+						}
+						continue
+					}
 					switch {
 					case c.Reject && r.Class() == 2:
 						add("C04:attribution:bdat", "%s: backend rejected the message but the final reply is %s", name, r)
@@ -838,6 +909,9 @@ func histMonitor(run *histRun) []hviol {
 				endTxn()
 			} else {
 				st.chunk = true
+				if c.Big {
+					st.bigSeen = true
+				}
 			}
 		case "rset":
 			if all2xx(rs) {
